@@ -92,6 +92,9 @@ fn c15_figures_match_recomputation() {
             chain[6].txs.push(sized(4, 252)); chain[7].txs.push(sized(5, 253)); chain[8].txs.push(sized(6, 252)); chain[10].txs.push(sized(7, 254));
             chain[11].txs.push(TxSpec::new(vec![TxIn::new([8; 32], 0, vec![])], (0..253).map(|i| TxOut::new(i, vec![])).collect()));
         }
+        // coinbases claiming less and more than the subsidy: fees are floored at zero PER coinbase, then summed
+        chain[3].txs[0].outputs[0].value = 49_0000_0000; chain[5].txs[0].outputs[0].value = 51_5000_0000; chain[6].txs[0].outputs[0].value = 50_0000_0001;
+        chain[9].txs[0].outputs[0].value = 0;
         // non-monotonic timestamps
         chain[4].time = chain[3].time - 500; chain[5].time = chain[3].time + 7; chain[8].time = 1;
         relink(&mut chain);
